@@ -1094,6 +1094,16 @@ pub fn try_unwrap_err(wd: &World, id: u32, pre: &PreUnwrap, c: &Cc<Node>) {
     if pre.sc == 1 && !pre.in_cb && !wd.in_collection.get() {
         wd.err("C13", "try_unwrap_err_unique", "try_unwrap_err_although_unique".into(), format!("Cc::try_unwrap returned Err for #{} although strong_count() was 1 outside any collection / callback", id));
     }
+    // a cleaning action that the program runs itself through Cleanable::clean() at top level is neither a collection, nor a
+    // finalizer, nor the destructor of a managed value
+    let top_level_clean = {
+        let s = wd.stack.borrow();
+        let frames: Vec<&Frame> = s.iter().filter(|f| !matches!(f, Frame::ApiOther)).collect();
+        frames.len() == 2 && matches!(frames[0], Frame::ApiClean) && matches!(frames[1], Frame::Cb(Cb::Action, _))
+    };
+    if pre.sc == 1 && top_level_clean && !wd.in_collection.get() && !wd.is_degraded() {
+        wd.err("C13", "try_unwrap_err_unique", "try_unwrap_err_although_unique:clean>ACTION".into(), format!("Cc::try_unwrap returned Err for #{} although strong_count() was 1, from a cleaning action run by a top-level Cleanable::clean() (no collection, finalizer or destructor is running)", id));
+    }
     let _ = callbacks_forbid;
     let payload = &**c as *const Node as usize;
     if payload != pre.payload {
